@@ -196,7 +196,7 @@ pub fn run(ctx: &Ctx, rep: &mut Report) {
         };
         // resource requests with deliberate repeats, case-only differences, literal/glob pairs
         let pats = ["a", "A", "a*", "A*", "b", "file1.txt", "FILE1.TXT", "*.txt", "q?", "zz"];
-        let files = ["f1", "f2", "F1"];
+        let files = ["f1", "f2", "F1", "./f1"];
         let plain = r.chance(1, 3); // plain mode: only newline-terminated stdout output
         let mut leaves = vec![];
         let mut names_used: Vec<String> = vec![];
@@ -210,10 +210,10 @@ pub fn run(ctx: &Ctx, rep: &mut Report) {
                 3 => t(Test::InsensitivePath(pat)),
                 4 => act(Action::Print),
                 5 => act(Action::PrintFormatted(vec![FormatElement::Field(FormatField::Basename), FormatElement::Special(FormatSpecial::Newline)])),
-                6 => act(Action::FilePrint(if big { format!("o{}", r.below(k as u64)) } else { files[r.usize(3)].to_string() })),
-                7 => act(Action::FilePrintNull(files[r.usize(3)].to_string())),
+                6 => act(Action::FilePrint(if big { format!("o{}", r.below(k as u64)) } else { files[r.usize(4)].to_string() })),
+                7 => act(Action::FilePrintNull(files[r.usize(4)].to_string())),
                 8 => act(Action::PrintNull),
-                _ => act(Action::FilePrintFormatted(files[r.usize(3)].to_string(), vec![FormatElement::Field(FormatField::Basename)])),
+                _ => act(Action::FilePrintFormatted(files[r.usize(4)].to_string(), vec![FormatElement::Field(FormatField::Basename)])),
             };
             if let Expression::Test(Test::Name(s) | Test::InsensitiveName(s) | Test::Path(s) | Test::InsensitivePath(s)) = &leaf {
                 names_used.push(s.clone());
